@@ -122,6 +122,16 @@ MUTANTS = [
     m("C11-plu-flags", "C11", "base-case@plu(LinearOperator)", DEC, "P, L, U = Permutation(p), Triangular(L, lower=True), Triangular(U, lower=False)", "P, L, U = Permutation(p), Triangular(L, lower=True), Triangular(U, lower=True)"),
     m("C11-plu-blockdiag-mult", "C11", "plu-roles@plu(BlockDiag)", DEC, "BD = lambda *args: BlockDiag(*args, multiplicities=A.multiplicities)  # noqa", "BD = lambda *args: BlockDiag(*args)  # noqa"),
     m("C11-plu-diag", "C11", "plu-roles@plu(Diagonal|ScalarMul)", DEC, "return cola.ops.I_like(A), S, S", "return cola.ops.I_like(A), A, S"),
+    # ---------------------------------------------------------------- C16
+    m("C16-pairing", "C16", "pairing@svd(LinearOperator,int,str,DenseSVD)", SVD, "    idx = A.xnp.argsort(Sigma, axis=-1)\n    return Unitary(Dense(U[:, idx])), Diagonal(Sigma[..., idx]), Unitary(Dense(V[:, idx]))",
+      "    idx = A.xnp.argsort(Sigma, axis=-1)\n    idx2 = A.xnp.argsort(-Sigma, axis=-1)\n    return Unitary(Dense(U[:, idx])), Diagonal(Sigma[..., idx2]), Unitary(Dense(V[:, idx]))"),
+    m("C16-gram-transpose", "C16", "gram-operator@svd(LinearOperator,int,str,Lanczos)", SVD, "eig_vals, V, _ = lanczos_eigs(A.H @ A, **alg.__dict__)", "eig_vals, V, _ = lanczos_eigs(A.T @ A, **alg.__dict__)"),
+    m("C16-backsubst-wide", "C16", "back-substitution@svd(LinearOperator,int,str,Lanczos)", SVD, "V = Unitary(lazify((inv(Sigma) @ U.H @ A).to_dense().conj().T))", "V = Unitary(lazify((inv(Sigma) @ U.H @ A).to_dense().T))"),
+    m("C16-backsubst-tall", "C16", "back-substitution@svd(LinearOperator,int,str,LOBPCG)", SVD, "    Sigma = Diagonal(xnp.sqrt(eig_vals[eig_slice]))\n    U = Unitary(lazify((A @ V @ inv(Sigma)).to_dense()))\n    return U, Sigma, V",
+      "    Sigma = Diagonal(xnp.sqrt(eig_vals[eig_slice]))\n    U = Unitary(lazify((A @ V @ Sigma).to_dense()))\n    return U, Sigma, V"),
+    m("C16-sigma-eigvals", "C16", "sigma-sign@svd(LinearOperator,int,str,LOBPCG)", SVD, "    Sigma = Diagonal(xnp.sqrt(eig_vals[eig_slice]))\n    U = Unitary(lazify((A @ V @ inv(Sigma)).to_dense()))\n    return U, Sigma, V",
+      "    Sigma = Diagonal(xnp.sqrt(eig_vals[eig_slice]))\n    U = Unitary(lazify((A @ V @ inv(Sigma)).to_dense()))\n    return U, A, V"),
+    m("C16-auto-hole", "C16", "auto-rule@svd(LinearOperator,int,str,Auto):exhaustive", SVD, "        case False:\n            alg = Lanczos(**alg.__dict__)\n    return svd(A, k, which, alg)", "        case None:\n            alg = Lanczos(**alg.__dict__)\n    return svd(A, k, which, alg)"),
     # ---------------------------------------------------------------- C17
     m("C17-drop-set-state", "C17", "rng-bracket@np_fns.randn", NP, "    z = np.random.randn(*shape).astype(dtype)\n    np.random.set_state(old_state)\n", "    z = np.random.randn(*shape).astype(dtype)\n"),
     m("C17-early-return", "C17", "rng-bracket@np_fns.randn", NP, "    z = np.random.randn(*shape).astype(dtype)\n", "    z = np.random.randn(*shape).astype(dtype)\n    if dtype is None:\n        return z\n"),
